@@ -98,7 +98,23 @@ def event_alphabet(flow_configs):
     return names
 
 
-def check_moves(moves, cfgs, out, covered=None):
+def _scopes_stripped(cfg, new, catch, scopes, stats):
+    """`EndScope` in slide removes the scope name from *every* head of the flow
+    (`for h in flow_state.heads.values(): h.scope_uids.remove(name)`), so a head may hold fewer
+    scopes than its own path opened when another head of the flow closed them.  The abstraction
+    tracks scopes per path: the concrete set has to be a subset of an abstract one with the same
+    position and handler stack.  Such moves are counted (they only happen when heads of one flow
+    interfere, see `dyn_moves_with_scope_closed_by_other_head`)."""
+    for s2 in cfg.scopes_at().get((new, catch), ()):
+        if scopes < s2:
+            if stats is not None:
+                stats["dyn_moves_with_scope_closed_by_other_head"] = (
+                    stats.get("dyn_moves_with_scope_closed_by_other_head", 0) + 1)
+            return True
+    return False
+
+
+def check_moves(moves, cfgs, out, covered=None, stats=None):
     """validate the recorded assignments of one step; returns number validated"""
     k = 0
     for fuid, old, new, catch, scopes, kind in moves:
@@ -115,7 +131,8 @@ def check_moves(moves, cfgs, out, covered=None):
                         f"the abstract control-flow graph has no such edge",
                 "detail": {"flow": cfg.flow_id, "old": old, "new": new, "kind": kind},
             })
-        elif kind != "join" and (new, catch, scopes) not in cfg.proj:
+        elif kind != "join" and (new, catch, scopes) not in cfg.proj and not _scopes_stripped(
+                cfg, new, catch, scopes, stats):
             out.append({
                 "signature": f"v2:impl-state-outside-model:{kind}",
                 "what": f"flow `{cfg.flow_id}`: head reached {new} (from {old}) with handlers "
@@ -156,7 +173,8 @@ def explore_dynamic(state, cfgs, depth, max_steps=300, budget=3000):
     raising = {}
     names = event_alphabet(state.flow_configs)
     counts = {"dyn_steps": 0, "dyn_moves": 0, "dyn_steps_raising": 0, "dyn_capped": 0,
-              "dyn_max_depth": 0, "dyn_choice_points": 0}
+              "dyn_max_depth": 0, "dyn_choice_points": 0,
+              "dyn_moves_with_scope_closed_by_other_head": 0}
     uid0 = v2x.UIDS.n
     stack = [(state, uid0, 0, ())]
     _ACTIVE[0] = True
@@ -199,7 +217,7 @@ def explore_dynamic(state, cfgs, depth, max_steps=300, budget=3000):
                     counts["dyn_choice_points"] += sum(1 for _, w in points[len(vec):] if w > 1)
                     moves = list(LOG)
                     nviol = len(out)
-                    counts["dyn_moves"] += check_moves(moves, cfgs, out, covered)
+                    counts["dyn_moves"] += check_moves(moves, cfgs, out, covered, counts)
                     h2 = hist + ((aev, tuple(taken)),)
                     for v in out[nviol:]:
                         v["history"] = [[list(a), list(t)] for a, t in h2]
